@@ -24,7 +24,7 @@ func init() {
 			"the with-expressions of the sandboxed include itself are written in the outer template and evaluated with outer permissions",
 			"macro calls count as function calls for the policy check (observed behaviour), so macro names used inside the sandbox are allowed functions",
 		},
-		quick: 38*16*2*4*2 + 24000, thorough: 38*16*2*4*2 + 400000, minQuick: 3000, minThorough: 60000,
+		quick: 41*16*2*4*2 + 24000, thorough: 41*16*2*4*2 + 400000, minQuick: 3000, minThorough: 60000,
 	}})
 }
 
@@ -80,6 +80,10 @@ var c06Positions = []string{
 	"{{ xs[%F] is defined ? 1 : 0 }}",
 	"{% include 'nope_' ~ (%F) ignore missing %}",
 	"{% for i in xs[%F]|default([]) %}{{ i }}{% endfor %}",
+	// tags that apply a filter by its name themselves (the application may have replaced that filter by its own)
+	"X_TAGFILTER:spaceless:{% spaceless %}<a> {{ v }} </a> <b>x</b>{% endspaceless %}",
+	"X_TAGFILTER:spaceless:{% apply spaceless %}<a> {{ v }} </a>{% endapply %}",
+	"X_TAGFILTER:spaceless:{{ '<a> </a>'|spaceless }}",
 	// method-form calls on a value that is no macro module fall back to the function table
 	"{{ v.X_FN() }}",
 	"{{ v.X_FN(1, v) }}",
@@ -245,6 +249,9 @@ func (p *c06) engine(spy *c06Spy, pol twig.SecurityPolicy, forbidName string) fu
 		for _, n := range []string{"f1", "f2", "okf", "upper", "merge", "e"} {
 			e.AddFilter(n, mkF(n))
 		}
+		if forbidName == "spaceless" {
+			e.AddFilter("spaceless", mkF("spaceless")) // the application's own spaceless
+		}
 		for _, n := range []string{"g1", "g2", "okg", "range", "max", "cycle"} {
 			e.AddFunction(n, mkG(n))
 		}
@@ -284,6 +291,15 @@ func (p *c06) Run(rec *core.Recorder, seed uint64, idx int, tier string) {
 		name = map[string]string{"filter": "merge", "function": "range"}[kind]
 	}
 	posSrc := c06Positions[pos]
+	if strings.HasPrefix(posSrc, "X_TAGFILTER:") {
+		// the forbidden name is the filter the tag applies
+		if kind != "filter" {
+			rec.Count("skipped-not-applicable", 1)
+			return
+		}
+		parts := strings.SplitN(posSrc, ":", 3)
+		name, posSrc = parts[1], parts[2]
+	}
 	spyOnly := strings.HasPrefix(posSrc, "SPYONLY:")
 	posSrc = strings.TrimPrefix(posSrc, "SPYONLY:")
 	frag, ok := c06Expand(posSrc, kind, name)
@@ -313,7 +329,7 @@ func (p *c06) Run(rec *core.Recorder, seed uint64, idx int, tier string) {
 			rec.Count(fmt.Sprintf("prefix-hops:%d", len(hops)), 1)
 		}
 	}
-	allowedF := map[string]bool{"okf": true, "default": true, "length": true, "f1": true, "f2": true, "upper": true, "merge": true, "e": true}
+	allowedF := map[string]bool{"okf": true, "default": true, "length": true, "f1": true, "f2": true, "upper": true, "merge": true, "e": true, "spaceless": true}
 	allowedG := map[string]bool{"okg": true, "g1": true, "g2": true, "range": true, "max": true, "cycle": true, "pm": true, "mac": true, "parent": true, "go": true, "hop": true, "imac": true}
 	mkPolicy := func(forbid bool) twig.SecurityPolicy {
 		f, g := map[string]bool{}, map[string]bool{}
